@@ -1,6 +1,7 @@
 (* C16 - model of solvor/bin_pack.py: solve_bin_pack().  Definitions only.
-   Sizes and capacity are rationals (decimal inputs idealised; the code compares `size <= remaining` with no
-   tolerance and updates `remaining - size`; float rounding of that subtraction is outside the model).
+   (The code after commit 6898168: the fit test is `size - remaining <= _EPS`, best-fit ties within _EPS, the
+   remaining capacity stays signed.)  Sizes and capacity are rationals (decimal inputs idealised; float rounding
+   of `remaining - size` is outside the model - the tolerance _EPS is what makes the float run agree with it).
    The algorithm string is parsed by the harness into (use_best_fit, decreasing) exactly as the code does
    (lower(), '_' -> '-', suffix '-decreasing', names first-fit/ff/best-fit/bf); an unknown name and every other
    ValueError (capacity <= 0, size > capacity, size < 0) is None.
@@ -19,35 +20,36 @@ Fixpoint set_nth {A} (i : nat) (v : A) (l : list A) : list A :=
   | x :: xs, S j => x :: set_nth j v xs
   end.
 
-(* first-fit: for b, (remaining, _) in enumerate(bins): if size <= remaining: best_bin = b; break *)
-Fixpoint first_fit (size : Q) (bins : list Q) (b : nat) : option nat :=
+(* first-fit: for b, (remaining, _) in enumerate(bins): if size - remaining <= _EPS: best_bin = b; break *)
+Fixpoint first_fit (eps size : Q) (bins : list Q) (b : nat) : option nat :=
   match bins with
   | [] => None
-  | r :: rest => if Qle_bool size r then Some b else first_fit size rest (S b)
+  | r :: rest => if Qle_bool (size - r) eps then Some b else first_fit eps size rest (S b)
   end.
 
 (* best-fit: best_remaining = inf; for b, (remaining, _) in enumerate(bins):
-       if size <= remaining < best_remaining: best_remaining = remaining; best_bin = b *)
-Fixpoint best_fit (size : Q) (bins : list Q) (b : nat) (best : option (nat * Q)) : option (nat * Q) :=
+       if size - remaining <= _EPS and best_remaining - remaining > _EPS: best_remaining = remaining; best_bin = b *)
+Fixpoint best_fit (eps size : Q) (bins : list Q) (b : nat) (best : option (nat * Q)) : option (nat * Q) :=
   match bins with
   | [] => best
   | r :: rest =>
-      let better := Qle_bool size r && match best with None => true | Some (_, br) => Qltb r br end in
-      best_fit size rest (S b) (if better then Some (b, r) else best)
+      let better := Qle_bool (size - r) eps &&
+                    match best with None => true | Some (_, br) => Qltb eps (br - r) end in
+      best_fit eps size rest (S b) (if better then Some (b, r) else best)
   end.
 
-Definition choose (use_best_fit : bool) (size : Q) (bins : list Q) : option nat :=
-  if use_best_fit then option_map fst (best_fit size bins 0 None) else first_fit size bins 0.
+Definition choose (use_best_fit : bool) (eps size : Q) (bins : list Q) : option nat :=
+  if use_best_fit then option_map fst (best_fit eps size bins 0 None) else first_fit eps size bins 0.
 
-(* one iteration of `for item_idx in indices` : state = (bins, assignments) *)
-Definition place (use_best_fit : bool) (cap : Q) (st : list Q * list nat) (item : nat * Q) : list Q * list nat :=
+(* one iteration of `for item_idx in indices` : state = (bins, assignments); `remaining - size` is kept signed *)
+Definition place (use_best_fit : bool) (eps cap : Q) (st : list Q * list nat) (item : nat * Q) : list Q * list nat :=
   let '(bins, asg) := st in
   let '(idx, size) := item in
   if Qeq_bool size 0 then
     (* zero-size items go in first bin (or create one) *)
     ((match bins with [] => [cap] | _ => bins end), set_nth idx 0%nat asg)
   else
-    match choose use_best_fit size bins with
+    match choose use_best_fit eps size bins with
     | Some b => (set_nth b (nth b bins 0 - size) bins, set_nth idx b asg)
     | None => (bins ++ [cap - size], set_nth idx (length bins) asg)        (* open new bin *)
     end.
@@ -60,14 +62,15 @@ Definition order_of (sizes : list Q) (decreasing : bool) : list (nat * Q) :=
 Definition valid_sizes (sizes : list Q) (cap : Q) : bool :=
   forallb (fun s => Qle_bool s cap && Qle_bool 0 s) sizes.
 
-Definition bin_pack (sizes : list Q) (cap : Q) (use_best_fit decreasing : bool) : option bresult :=
+(* eps = _EPS of the code (1e-9 = Knapsack.tol); a parameter so that the theorems hold for every eps >= 0 *)
+Definition bin_pack (eps : Q) (sizes : list Q) (cap : Q) (use_best_fit decreasing : bool) : option bresult :=
   match sizes with
   | [] => Some {| basg := []; bobj := 0; bstatus := OPTIMAL |}
   | _ =>
     if Qle_bool cap 0 then None                                   (* check_positive *)
     else if negb (valid_sizes sizes cap) then None                 (* size > capacity / size < 0 *)
     else
-      let '(bins, asg) := fold_left (place use_best_fit cap) (order_of sizes decreasing)
+      let '(bins, asg) := fold_left (place use_best_fit eps cap) (order_of sizes decreasing)
                                     ([], repeat 0%nat (length sizes)) in
       let k := length bins in
       Some {| basg := asg; bobj := k; bstatus := if (1 <? k)%nat then FEASIBLE else OPTIMAL |}
